@@ -110,7 +110,7 @@ pub fn roles(c: &Carrier) -> Vec<(String, RoleKind)> {
         }
         if c.pres.styles[pi].named {
             for j in 0..rhs.len() {
-                if c.pres.styles[pi].skip_mask >> j & 1 == 0 {
+                if !c.pres.styles[pi].skipped(j) {
                     out.push((format!("f{pi}_{j}"), RoleKind::Field));
                 }
             }
@@ -339,8 +339,8 @@ pub fn run(ctx: &Ctx) -> Outcome {
         use crate::gramsweep::{g, gsym, Spec};
         use crate::scopes::*;
         let specs: Vec<Spec> = match ctx.tier {
-            Tier::Quick => vec![g(2, 0, 2, 2), g(2, 1, 2, 2), gsym(2, 2, 2, 2), g(3, 1, 3, 1), gsym(3, 2, 3, 1), gsym(4, 0, 4, 1), Spec::PSpace { max_fields: 2, recursion: false }],
-            Tier::Thorough => vec![g(2, 0, 2, 2), g(2, 1, 2, 2), g(2, 2, 2, 2), g(3, 1, 3, 1), gsym(3, 2, 3, 1), gsym(4, 0, 4, 1), gsym(3, 0, 3, 2), gsym(2, 2, 3, 2), Spec::PSpace { max_fields: 3, recursion: true }],
+            Tier::Quick => vec![g(2, 0, 2, 2), g(2, 1, 2, 2), gsym(2, 2, 2, 2), g(3, 1, 3, 1), gsym(3, 2, 3, 1), gsym(4, 0, 4, 1), Spec::PSpace { max_fields: 2, recursion: false }, Spec::Scaled { deep: false }],
+            Tier::Thorough => vec![g(2, 0, 2, 2), g(2, 1, 2, 2), g(2, 2, 2, 2), g(3, 1, 3, 1), gsym(3, 2, 3, 1), gsym(4, 0, 4, 1), gsym(3, 0, 3, 2), gsym(2, 2, 3, 2), Spec::PSpace { max_fields: 3, recursion: true }, Spec::Scaled { deep: true }],
         };
         for spec in &specs {
             let b = cases.len();
@@ -370,6 +370,11 @@ pub fn run(ctx: &Ctx) -> Outcome {
                     for p in crate::pspace::patterns(*max_fields, *recursion).into_iter().chain(crate::pspace::long_patterns(crate::pspace::LONG_MAX)) {
                         let (gr, pres, _) = crate::pspace::build(&p);
                         add(gr, pres, &mut cases);
+                    }
+                }
+                Spec::Scaled { deep } => {
+                    for (i, f) in crate::scaled::families(*deep).iter().enumerate() {
+                        add(f.g.clone(), crate::scaled::presentation(f, i), &mut cases);
                     }
                 }
                 _ => unreachable!(),
